@@ -1,7 +1,7 @@
 SPECIFICATION Spec
 CONSTANTS
   MaxChunks = 3
-  ApplyAsPinned = TRUE
-  EvalFnAsPinned = FALSE
+  ApplyAsPinned = FALSE
+  EvalFnAsPinned = TRUE
 INVARIANTS TypeOK PcInRange
 CHECK_DEADLOCK FALSE
